@@ -151,17 +151,25 @@ func (endp *Endpoint) Init(cfg *config.Map) error {
 
 func autoBufferMode(maxSize int, dir string) func(io.Reader) (buffer.Buffer, error) {
 	return func(r io.Reader) (buffer.Buffer, error) {
-		// First try to read up to N bytes.
+		// First try to read up to N bytes. io.ReadFull cannot be used for
+		// that: it reports a short read as io.ErrUnexpectedEOF, which is also
+		// the error of the SMTP data reader for a connection lost before the
+		// end of the message.
 		initial := make([]byte, maxSize)
-		actualSize, err := io.ReadFull(r, initial)
+		var (
+			actualSize int
+			err        error
+		)
+		for actualSize < maxSize && err == nil {
+			var n int
+			n, err = r.Read(initial[actualSize:])
+			actualSize += n
+		}
 		if err != nil {
-			if err == io.ErrUnexpectedEOF {
+			if err == io.EOF {
+				// That includes the special case of message with empty body.
 				log.Debugln("autobuffer: keeping the message in RAM (read", actualSize, "bytes, got EOF)")
 				return buffer.MemoryBuffer{Slice: initial[:actualSize]}, nil
-			}
-			if err == io.EOF {
-				// Special case: message with empty body.
-				return buffer.MemoryBuffer{}, nil
 			}
 			// Some I/O error happened, bail out.
 			return nil, err
